@@ -25,6 +25,7 @@ fn main() {
                 "C22" => pkgprops::run_c22(&Ctx::new("C22", &tier)),
                 "C01" => progprops::run(&Ctx::new("C01", &tier)),
                 "C02" => progprops::run(&Ctx::new("C02", &tier)),
+                "C17" => progprops::run_c17(&Ctx::new("C17", &tier)),
                 "gen-dump" => progprops::dump(&args[2..]),
                 "smoke" => smoke::run(&args[2..]),
                 "replay" => replay(&args[2]),
